@@ -77,6 +77,8 @@ func RunSimCheck(run *harness.Run, sc *SimCheck) int {
 	scheds := map[[32]byte]bool{}
 	states := map[[16]byte]bool{}
 	var violCases []int
+	unlistedCases := 0
+	known := harness.LoadKnown()
 	violByCase := map[int][]Violation{}
 	var samples []interface{}
 	running := make([]slot, workers)
@@ -114,6 +116,12 @@ func RunSimCheck(run *harness.Run, sc *SimCheck) int {
 				if len(mine) > 0 {
 					violCases = append(violCases, i)
 					violByCase[i] = mine
+					for _, v := range mine {
+						if harness.Match(known, &harness.Finding{Prop: v.Prop, Rule: v.Rule, Taint: v.Taint}) == nil {
+							unlistedCases++
+							break
+						}
+					}
 				}
 				if len(samples) < 3 && sc.NonTrivial(r) {
 					samples = append(samples, map[string]interface{}{"case": i, "config": r.Cfg.Describe(), "steps": r.Steps, "commits": r.Commits, "violations_of_this_property": len(mine)})
@@ -143,7 +151,16 @@ func RunSimCheck(run *harness.Run, sc *SimCheck) int {
 			}
 		}
 	}()
+	stoppedEarly := -1
 	for i := 0; i < cases; i++ {
+		mu.Lock()
+		nv := unlistedCases
+		mu.Unlock()
+		if nv >= 40 {
+			// the property is violated (not by a listed known finding) in 40 cases already: the verdict cannot change, the remaining cases are not run
+			stoppedEarly = i
+			break
+		}
 		ch <- i
 	}
 	close(ch)
@@ -195,6 +212,10 @@ func RunSimCheck(run *harness.Run, sc *SimCheck) int {
 		judged[k] = total[k]
 	}
 	cov["events_judged"] = judged
+	if stoppedEarly >= 0 {
+		cov["stopped_after_40_violating_cases_at_case"] = stoppedEarly
+		sc.Floors = nil // (floors are about exploring enough when nothing is found)
+	}
 	adv := map[string]int{}
 	for k, v := range total {
 		if len(k) > 4 && k[:4] == "adv " {
